@@ -164,6 +164,45 @@ def check_buffer_carriers():
     return out[:3]
 
 
+def check_hex_texts():
+    """from_hex reads pairs of hex digits (optionally separated by white space or the given
+    separator): the reverse of hex(), nothing more lenient and nothing stricter."""
+    import mido
+    out = []
+    good = [('904060', [0x90, 0x40, 0x60]), ('90 40 60', [0x90, 0x40, 0x60]), ('9040 60', [0x90, 0x40, 0x60]),
+            ('f8', [0xf8]), ('F0\t01\n02 f7', [0xf0, 1, 2, 0xf7]), (' c1 05 ', [0xc1, 5]), ('C105', [0xc1, 5]),
+            ('F0F7', [0xf0, 0xf7])]
+    bad = ['90 4 6', '090 040 060', '0x90 0x40 0x60', '9_0 40 60', '+90 40 60', '90 40 6', '9 04060', '90 40 60 7',
+           '\uff19\uff10 40 60', '90 40 -1', '90 4g 60', '', '  ', '0x90', '90 40 60h', '1 90 40 60']
+    for text, exp in good:
+        try:
+            m = mido.Message.from_hex(text)
+        except Exception as e:
+            out.append(('rejects-valid/hex-text', {'kind': 'hextexts'}, 'from_hex(%r) raised %r' % (text, e)))
+            continue
+        if list(m.bytes()) != exp:
+            out.append(('wrong-message/hex-text', {'kind': 'hextexts'}, 'from_hex(%r) = %s' % (text, core.srepr(m))))
+    for text in bad:
+        try:
+            m = mido.Message.from_hex(text)
+        except ValueError:
+            continue
+        except Exception as e:
+            out.append(('wrong-exception/%s/hex-text' % type(e).__name__, {'kind': 'hextexts'}, 'from_hex(%r) raised %r' % (text, e)))
+            continue
+        out.append(('accepts-invalid/hex-text', {'kind': 'hextexts'}, 'from_hex(%r) returned %s' % (text, core.srepr(m))))
+    for sep in (':', '', ' - ', '.', '|', '+', '(', 'x'):
+        for bs in ([0x90, 0x40, 0x60], [0xf8], [0xf0, 1, 0xf7]):
+            text = sep.join('%02X' % b for b in bs)
+            try:
+                m = mido.Message.from_hex(text, sep=sep or None)
+                if list(m.bytes()) != bs:
+                    out.append(('wrong-message/hex-sep', {'kind': 'hextexts'}, 'from_hex(%r, sep=%r) = %s' % (text, sep, core.srepr(m))))
+            except Exception as e:
+                out.append(('rejects-valid/hex-sep', {'kind': 'hextexts'}, 'from_hex(%r, sep=%r) raised %r' % (text, sep, e)))
+    return out[:3]
+
+
 def check_device_sequences():
     """Each delivery of the device is judged on its own: what an earlier delivery
     left unfinished must not turn a later malformed one into a message."""
@@ -238,6 +277,9 @@ def worker(lines):
 
 
 def replay(case):
+    if case.get('kind') == 'hextexts':
+        v = check_hex_texts()
+        return v and v[0][2]
     if case.get('kind') == 'carriers':
         v = check_buffer_carriers()
         return v and v[0][2]
@@ -393,6 +435,9 @@ def run(ctx):
         'converse direction (every Encode(m) is accepted) rests on RoundTrip checked in C01',
         'non-integer items are represented by the objects %r' % (NONINT,),
     ]
+    for key, case, msg in check_hex_texts():
+        ctx.violation('from_bytes/' + key, case, msg)
+    ctx.replayed += 48
     for key, case, msg in check_buffer_carriers():
         ctx.violation('from_bytes/' + key, case, msg)
     ctx.replayed += 16
